@@ -18,6 +18,45 @@ func ruleA2(r *Run, p *Prog) *a2 {
 	type root struct {
 		f *ssa.Function
 	}
+	// The per-build hooks appendJSON / appendCBOR are taken as value primitives by contract (their
+	// interior belongs to A4).  The contract has one structural part that is checked here: the
+	// hook never returns its destination unchanged — a path that appends nothing leaves the key
+	// already written by the caller without a value.
+	for _, hn := range []string{"appendJSON", "appendCBOR"} {
+		h := p.Func("", hn)
+		if !r.Anchor(h != nil && len(h.Params) >= 1, "A2", "per-build hook "+hn) {
+			continue
+		}
+		hv := p.View(h, "", nil)
+		dstPar := ssa.Value(hv.Params[0])
+		unchanged := false
+		var carries func(v ssa.Value, depth int) bool
+		carries = func(v ssa.Value, depth int) bool {
+			if v == dstPar {
+				return true
+			}
+			if ph, ok := v.(*ssa.Phi); ok && depth < 6 {
+				for _, e := range ph.Edges {
+					if carries(e, depth+1) {
+						return true
+					}
+				}
+			}
+			return false
+		}
+		var pos ssa.Instruction
+		eachInstr(hv, func(b *ssa.BasicBlock, i int, in ssa.Instruction) {
+			if ret, ok := in.(*ssa.Return); ok && len(ret.Results) == 1 && carries(ret.Results[0], 0) {
+				unchanged = true
+				pos = in
+			}
+		})
+		at := h.Pos()
+		if pos != nil {
+			at = pos.Pos()
+		}
+		r.Ob("A2", FnName(h)+"/appends-a-value", p.Pos(at), !unchanged, true, tern(!unchanged, hn+" returns an extended buffer on every path (one value per call, as its callers assume)", hn+" can return its destination unchanged: the key its caller has already written is left without a value"))
+	}
 	var roots []*ssa.Function
 	for _, tn := range []string{"Event", "Array", "Context", "Logger"} {
 		roots = append(roots, p.Methods("", tn, true)...)
